@@ -107,8 +107,9 @@ end IndicatifModel.EstimatorLaws
 
 namespace IndicatifModel.Estimator
 
-/-- **Reset forgets.** After `reset_eta` / `reset` at time `now` with the bar at position `p` (the
-repaired `BarState::reset` sets `prev_steps` to the current position first), every later sequence of
+/-- **Reset forgets.** After `reset_eta` / `reset_elapsed` at time `now` with the bar at position `p` (the
+repaired `BarState::reset` sets `prev_steps` to the current position first; for `reset()`, which also moves the position
+back to zero, see `C09_reset_all_is_fresh`), every later sequence of
 `record` calls behaves exactly like the same sequence, with positions counted from `p`, on an estimator
 created at `now`: the state is the fresh one shifted by `p`, so every reported rate is identical.
 Holds for any arithmetic (`Ops α`), in particular for `Float`. -/
@@ -124,6 +125,16 @@ theorem C09_reset_forgets {α : Type} (o : Ops α) (e : Est α) (p now : Nat) (c
     rw [h0]
     exact fold_shift o p calls (new o now)
   exact ⟨h, by rw [h]; rfl⟩
+
+/-- **`reset()` starts over** (repair of F37): after `ProgressBar::reset` at time `now` the estimator is exactly the one of a
+bar created at `now` (both averages zero, no steps seen, clock at `now`), the position is zero and the elapsed clock restarts —
+whatever the position and the history were. Every later rate, eta and duration is therefore the one a fresh bar given the
+same updates reports. (The pinned code, and the first repair of F21, left the old position in `prev_steps`: a bar at 100 that
+was reset and moved to 150 within a second reported 50 steps/s.) -/
+theorem C09_reset_all_is_fresh {α : Type} (o : Ops α) (w : EW α) (now : Nat) :
+    (step o w now .reset).est = new o now ∧ (step o w now .reset).pos = 0 ∧ (step o w now .reset).started = now ∧
+    (step o w now .reset).finished = false := by
+  simp [step, reset, new]
 
 /-- **eta and duration, as the getters compute them** (the same definitions the driver runs on `Float` against the crate):
 `eta` is zero when the bar is finished, when the length is unknown and when the estimated rate is zero (no progress seen);
